@@ -841,6 +841,10 @@ func emit(line string) ([][]byte, storeBytes) {
 	out.Count("op:" + op)
 	if strings.HasPrefix(ans, "panic") {
 		out.Count("answer:panic:" + op)
+		if op == "STORE" || op == "ITEMS" {
+			// encoding and reading back a well-formed content must never crash a marshaller
+			fail("C18/marshaller-panics-on-valid-content", "a marshaller panics while writing or reading back a well-formed content", line)
+		}
 	}
 	for _, part := range strings.Fields(ans) {
 		if i := strings.Index(part, "=err:"); i >= 0 {
